@@ -27,9 +27,9 @@ OBLIGATIONS = [
     'C07.signedDiv_inner_divisor_ne_zero', 'C07.signedDiv_spec', 'C07.shiftLeftConstant_spec', 'C07.shiftRightConstant_spec',
     'C07.rotateLeftConstant_spec', 'C07.rotateRightConstant_spec', 'C07.rotateLeftConstantOld_counterexample',
     'C07.rotateRightConstantOld_counterexample', 'C07.shiftLeft_spec', 'C07.shiftRight_logical_spec',
-    'C07.shiftRight_arith_spec_partial', 'C07.shiftRight_wire_spec_partial', 'C07.shiftRight_arith_counterexample',
-    'C07.shiftRight_arith_spec_narrow', 'C07.rotateLeft_spec_partial', 'C07.rotateRight_spec_partial',
-    'C07.rotateLeft_counterexample', 'C07.rotateRight_counterexample', 'C07.binaryToBCD_spec', 'C07.binaryToBCD_exact',
+    'C07.shiftRight_arith_spec', 'C07.shiftRight_wire_spec', 'C07.shiftRight_arith_former_witness',
+    'C07.shr_extended', 'C07.rotateLeft_spec', 'C07.rotateRight_spec',
+    'C07.rotateLeft_former_witness', 'C07.rotateRight_former_witness', 'C07.binaryToBCD_spec', 'C07.binaryToBCD_exact',
     'C07.countLeadingZeros_spec', 'C07.countLeadingZeros_z_spec',
     # the primitive blocks stated directly on the generated code
     'C07.gen_AddCarryIn_spec', 'C07.gen_Sub_spec', 'C07.gen_Mul_spec', 'C07.gen_SignedMul_spec', 'C07.gen_Div_spec',
